@@ -159,6 +159,8 @@ def _call(fn):
             return fn()
     except STAT_ERRS as e:
         return "err"
+    except NotImplementedError:      # "distribution type ... not recognized": a refusal
+        return "err"
 
 
 def impl_stats(obj, d):
@@ -367,7 +369,23 @@ def as_user_containers(oid, freq, rows):
         return freq, rows.astype(np.int64)
     if k == 4 and np.array_equal(rows.astype(np.float32).astype(float), rows) and np.array_equal(freq.astype(np.float32).astype(float), freq):
         return freq.astype(np.float32), rows.astype(np.float32)
+    if k in (0, 2):
+        # float64 work buffers the caller goes on using: scribbled on by `reuse_buffers` right after the object is built
+        fb, rb = freq.copy(), rows.copy()
+        _BUFFERS.append((fb, rb))
+        return fb, rb
     return freq, rows
+
+
+_BUFFERS = []
+
+
+def reuse_buffers():
+    """the caller re-uses its arrays for the next site: an object must have kept its own copy of what it was given"""
+    while _BUFFERS:
+        fb, rb = _BUFFERS.pop()
+        fb[:] = fb[::-1].copy() * 3.0 + 1.0
+        rb[:] = 7.0 + rb[..., ::-1].copy() * 0.0
 
 
 class Mirror:
@@ -386,6 +404,7 @@ class Mirror:
         m.kind = "T"
         m.freq, m.rows = np.array(freq, dtype=float), np.array(rows, dtype=float)
         m.obj = hvsrpy.HvsrTraditional(*as_user_containers(oid, m.freq, m.rows))
+        reuse_buffers()
         m.lines.append(f"hv.new {oid} {fvec(m.freq)} {fmat(m.rows)}")
         return m
 
@@ -399,6 +418,7 @@ class Mirror:
         m.azimuths = [float(a) for a in azimuths]
         hs = [hvsrpy.HvsrTraditional(*as_user_containers(oid + k, m.freq, r)) for k, r in enumerate(m.rows_per_az)]
         m.obj = hvsrpy.HvsrAzimuthal(hs, m.azimuths)
+        reuse_buffers()
         ids = []
         for k, r in enumerate(m.rows_per_az):
             sub = oid * 1000 + k + 1
